@@ -30,6 +30,12 @@ def main():
     rc, out = sh(f'git -C /repo worktree add -q {wt} HEAD')
     assert rc == 0, out
     env = dict(os.environ, PYTHONPATH=wt, PYTHONWARNINGS='ignore', PYTHONDONTWRITEBYTECODE='1')
+    old_history = None
+    if os.path.exists(os.path.join(dst, 'meta.json')):
+        try:
+            old_history = json.load(open(os.path.join(dst, 'meta.json'))).get('history')
+        except Exception:
+            pass
     meta = {'seed': sid, 'property': prop, 'repo_head': sh('git -C /repo rev-parse --short HEAD')[1].strip()}
     try:
         rc0, out0 = sh(f'/venv/bin/python {dst}/demo.py', cwd=wt, env=env, timeout=300)
@@ -57,6 +63,8 @@ def main():
         lines = [l for l in outc.split('\n') if l.strip()]
         meta['check'] = {'exit': rcc, 'violation_line': next((l for l in lines if l.startswith('VIOLATION')), None),
                          'tail': lines[-8:]}
+        if old_history:
+            meta['history'] = old_history
         meta['confirmed'] = bool(rc0 == 0 and rc1 != 0 and meta['patch_applies'] and
                                  (skip_suite or not meta['suite']['baseline_missing']))
         meta['caught_by_check'] = rcc == 1 and meta['check']['violation_line'] is not None
